@@ -21,7 +21,13 @@ def pool_ops():
 def pool_cases(max_ops):
     pre = st.lists(st.tuples(st.just('add'), st.sampled_from(NAMES), st.sampled_from([1, 2, 3, 5])).map(list),
                    min_size=1, max_size=3)
-    return st.builds(lambda a, b: {'ops': a + b}, pre, st.lists(pool_ops(), min_size=4, max_size=max_ops))
+    # declared / asked before the simulation starts (before the manager gets its environment)
+    early = st.lists(st.one_of(st.tuples(st.just('add'), st.sampled_from(NAMES), st.sampled_from([1, 2, 3])).map(list),
+                               st.tuples(st.just('reserve'), st.dictionaries(st.sampled_from(NAMES), st.sampled_from([0, 1, 2, 3]),
+                                                                             min_size=1, max_size=2)).map(list)),
+                     min_size=0, max_size=5)
+    return st.builds(lambda a, b, e, use: {'ops': b if use else a + b, 'before_start': (e[:len(e) // 2] + a + e[len(e) // 2:]) if use else []}, pre,
+                     st.lists(pool_ops(), min_size=4, max_size=max_ops), early, st.sampled_from([False, False, True]))
 
 
 # ---------------------------------------------------------------------------------- waiting requests
